@@ -1,12 +1,15 @@
 #!/bin/bash
 # Build the framework offline from files on disk: harness module, translator, Gen facts, Lean project, driver.
 set -e
-cd /verif
+cd "$(dirname "$0")"
+V=$(pwd)
+REPO=${VERIF_REPO:-/repo}
 export GOFLAGS=-mod=mod GOPROXY=off
 unset GOTOOLCHAIN GOSUMDB
 scripts/gen_gomod.sh
 mkdir -p harness/bin evidence replays
 (cd harness && go build -o bin/extract ./extract && go build -tags verif -o bin/vcheck ./cmd/vcheck)
-harness/bin/extract /verif/lean/Qryn/Gen /repo || true
+scripts/gen_handlers.sh
+harness/bin/extract "$V/lean/Qryn/Gen" "$REPO" || true
 (cd lean && lake build Qryn driver)
 echo "setup done"
